@@ -3,3 +3,5 @@ pub mod pool2_gen;
 pub mod pool2_oracle;
 pub mod pool2_router;
 pub mod stable2;
+pub mod vault;
+pub mod vault_helpers;
